@@ -334,9 +334,8 @@ def _lays(tier):
 
 
 MUTANTS = [
-    dict(name="copy keeps the old chunk size in rechunk mode", file="strax/context.py",
-         old='                            data.target_size_mb = md["chunk_target_size_mb"]\n                        except StopIteration:\n                            return',
-         new='                            pass\n                        except StopIteration:\n                            return'),
+    dict(name="saver keeps the chunk list of the metadata it was given (copy doubles the chunk list)",
+         file="strax/storage/common.py", old='        self.md["chunks"] = []', new='        self.md.setdefault("chunks", [])'),
     dict(name="rechunk on load cuts 500 ns late", file="strax/storage/common.py",
          old='                    t=chunk.data["time"][index] - int(strax.DEFAULT_CHUNK_SPLIT_NS // 2),',
          new='                    t=chunk.data["time"][index] + int(strax.DEFAULT_CHUNK_SPLIT_NS // 2),'),
@@ -349,7 +348,10 @@ OBLIGATIONS = [
        [dict(layout=l, rechunk=True, target=t) for l in _lays(tier) if sum(l) >= 2 for t in (1, 2)] +
        [dict(layout=[2, 1], compressor="zstd"), dict(layout=[1, 1, 1], rechunk=True, target=2, compressor="lz4")],
        nat_copy, setup=_setup, witnesses=1),
-    Ob("onload", sym_onload, lambda tier: [dict(layout=l, source_rows=r) for l in _lays(tier) for r in (1, 2)],
+    # get_splits only cuts a stored chunk of >= source_rows + 2 rows: the [3] / [1, 3] / [4] layouts are the ones
+    # where rechunk-on-load really splits
+    Ob("onload", sym_onload, lambda tier: [dict(layout=l, source_rows=r) for l in _lays(tier) +
+                                           ([[3], [1, 3]] if tier == "quick" else [[3], [1, 3], [4], [3, 2]]) for r in (1, 2)],
        nat_onload, setup=_setup, witnesses=1),
     Ob("standalone", sym_standalone, lambda tier: [dict(layout=l, replace=rp, target=t) for l in _lays(tier)
                                                    for rp in (False, True) for t in (1, 2)] +
